@@ -350,6 +350,7 @@ def render_deck(deck, rng, wrap=True):
     lines.append('')
     for k in range(1, deck['nsurf'] + 1):
         lines.append(f'{k} so {k}')
+    lines.extend(deck.get('extra_surfs', []))
     lines.append('')
     for name, toks in deck['imp_cards']:
         if wrap and len(toks) > 4 and rng.random() < 0.3:
